@@ -107,8 +107,8 @@ theorem minFold (σ : Assign) (name : String) (ms me : VarId) (children : List (
     unfold minStep varInd isVarInd
     by_cases hu : r.util = true
     · cases hi : r.ind with
-      | const c => simp [hu, evalTerms]
-      | var v => simp [hu, evalTerms, List.sum_append]; omega
+      | const c => simp [hu, evalTerms, indTermOf]
+      | var v => simp [hu, evalTerms, List.sum_append, indTermOf]; omega
     · simp [hu]
 
 theorem varInd_zero_of_not_var (σ : Assign) (r : PR) (h : isVarInd r = false) : varInd σ r = 0 := by
